@@ -19,18 +19,15 @@ Definition inline_friendly (outline : list (string * json)) (inline : list (stri
 Definition oe (cond : bool) (k : string) (v : json) : list (string * json) :=
   if cond then [] else [(k, v)].
 
-(** isEmptyValue on an `any` *)
+
+(** `skip,omitempty` of a matrix adjustment (MatrixAdjustment.MarshalJSON, after the fix of finding F21): the value
+    is left out only when it means "do not skip" - nil or false; every other value means skip (ShouldSkip), however
+    empty it looks, and is written *)
 Definition is_empty_any (g : gv) : bool :=
   match g with
   | GNull => true
   | GBool b => negb b
-  | GInt z => Z.eqb z 0
-  | GFloat j _ => String.eqb j "0" || String.eqb j "-0"
-  | GStr s => String.eqb s ""
-  | GSeq l => match l with [] => true | _ => false end
-  | GUMap l => match l with [] => true | _ => false end
-  | GMap _ => false     (* a non-nil *ordered.Map pointer *)
-  | GTime _ => false
+  | _ => false
   end.
 
 Definition mj_sig (s : signature) : json :=
